@@ -1,17 +1,17 @@
 #!/bin/sh
 # tools/regress_seeds.sh [workers]: re-runs every stored seeded change (seeded/*/patch.diff) and every own
-# mutant (mutants/*.diff) against the quick check of the property it targets, each in a scratch worktree
+# mutant (mutants/*.patch) against the quick check of the property it targets, each in a scratch worktree
 # of /repo (never /repo itself). Prints one line per change; exit 1 if any is not detected.
 cd "$(dirname "$0")/.."
 W=${1:-4}
-ls -d seeded/*/ mutants/*.diff 2>/dev/null | awk -v w=$W '{print NR % w, $0}' > /tmp/regress-list.txt
+ls -d seeded/*/ mutants/*.patch 2>/dev/null | awk -v w=$W '{print NR % w, $0}' > /tmp/regress-list.txt
 for k in $(seq 0 $((W-1))); do
   (
     wt=/tmp/wt-regress-$k
     [ -d $wt ] || git -C /repo worktree add -q --detach $wt HEAD
     grep "^$k " /tmp/regress-list.txt | cut -d' ' -f2 | while read item; do
       if [ -d "$item" ]; then patch=$PWD/${item}patch.diff; prop=$(basename $item | cut -c1-3); name=$(basename $item)
-      else patch=$PWD/$item; prop=$(basename $item | cut -c1-3); name=$(basename $item .diff); fi
+      else patch=$PWD/$item; prop=$(basename $item | cut -c1-3); name=$(basename $item .patch); fi
       git -C $wt checkout -q --detach "$(git -C /repo rev-parse HEAD)"; git -C $wt checkout -q -- .; git -C $wt clean -fdq -e target
       if ! git -C $wt apply "$patch" 2>/dev/null; then echo "$name PATCH-DOES-NOT-APPLY"; continue; fi
       out=$(VERIF_SUBJECT=$wt VERIF_EVIDENCE_DIR=/tmp/regress-ev-$k VERIF_REPLAY_DIR=/tmp/regress-rp-$k ./check $prop quick 2>/dev/null); code=$?
